@@ -35,6 +35,7 @@ def kv (w : String) : String := (w.splitOn "=").getD 1 ""
 
 def parseFrame (w : String) : Ev :=
   if w == "r" then .frame (.reply [])
+  else if w.startsWith "r:" then .frame (.reply (((w.drop 2).toString.splitOn ";").map parsePush))  -- reply with embedded pushes
   else if w.startsWith "p:" then .frame (.push (parsePush (w.drop 2).toString))
   else if w == "hook1" then .setHook true
   else if w == "hook0" then .setHook false
@@ -79,6 +80,14 @@ def step (d : DSt) (ws : List String) : DSt × String :=
     (d, match invArg (parsePush w) with
       | none => "-"
       | some a => showCalls ((if d.cfg.optCb then [Call.opt a] else []) ++ (if d.st.hookInv then [Call.hook a] else [])))
+  | "!redis6" :: _ => (d, "served")   -- specification: a reply with embedded pushes never crashes the client
+  | "e2e6" :: frames =>
+    -- a Redis 6 connection: pushes embedded in replies are dispatched too
+    (d, showArgs (optLog (run ⟨true, true⟩ {} (frames.map parseFrame))))
+  | "!e2e6" :: frames =>
+    let evs := frames.map parseFrame
+    let live := evs.takeWhile fun | .disconnect _ => false | _ => true
+    (d, showArgs (pushLog ⟨true, true⟩ live ++ [none]))
   | "e2eboth" :: frames =>
     let cs := run ⟨false, true⟩ {} (frames.map parseFrame)
     (d, "opt=" ++ showArgs (optLog cs) ++ " hook=" ++ showArgs (hookLog cs))
